@@ -16,6 +16,7 @@ EXPLANATION = (
     "is_private_attribute returns False only for public or non-reserved dunder names; expose marks only own, non-private "
     "members."
     "Also decided: _get_attribute returns only the looked-up member and no gate can fall off its end; the class-expose loop tests the member's own name for privacy; _reset_exposed_members addresses the cache entry _get_exposed_members wrote; every loadsCall hands object id and member name on exactly as decoded. "
+    "Also decided (round 7): The property gates run the examined descriptor's own accessor (no getattr/setattr on the object); resetMetadataCache hands the unwrapped object to the cache reset. "
     "Not decided: getattr/descriptor behaviour for arbitrary class shapes, unicode look-alikes, non-string names."
 )
 
